@@ -7,6 +7,7 @@ import LasModel.Driver.SpecD
 import LasModel.Driver.FileD
 import LasModel.Driver.ReaderD
 import LasModel.Driver.ScalD
+import LasModel.Driver.ConvD
 namespace LasModel.Driver
 
 def dispatch (line : String) : String :=
@@ -19,6 +20,7 @@ def dispatch (line : String) : String :=
   | "file" :: rest => (FileD.handle rest).getD "bad-op"
   | "rd" :: rest => (ReaderD.handle rest).getD "bad-op"
   | "sc" :: rest => (ScalD.handle rest).getD "bad-op"
+  | "cv" :: rest => (ConvD.handle rest).getD "bad-op"
   | _ => "bad-op"
 
 partial def loop (h : IO.FS.Stream) (out : IO.FS.Stream) : IO Unit := do
